@@ -11,6 +11,7 @@ import SRVerif.Driver.Solve
 import SRVerif.Driver.C11
 import SRVerif.Model.Newick
 import SRVerif.Model.SolOutput
+import SRVerif.Model.SolOutputColour
 import SRVerif.Model.Solvers
 
 open Lean
@@ -36,6 +37,18 @@ def namingOf (j : Json) : Except String Naming := do
          oname := fun p => (on.lookup p).getD ""
          fname := fun i => (fn.lookup i).getD "" }
 
+/-- The colours of the input file: optional tables `scolours`, `ocolours` (`[[path, colour] …]`,
+    one entry per COLOURED node; absent table or absent node = no colour). -/
+def colouringOf (j : Json) : Except String Colouring := do
+  let tab (k : String) : Except String (List (Path × String)) :=
+    match j.getObjVal? k with
+    | .ok .null => pure []
+    | .ok _ => nameTable j k
+    | .error _ => pure []
+  let sc ← tab "scolours"
+  let oc ← tab "ocolours"
+  pure { scol := fun p => sc.lookup p, ocol := fun p => oc.lookup p }
+
 /-! ## The embedding (op `c12b_emb`) -/
 
 /-- The model's result list for an algorithm under `all` (what op `solve` prints). -/
@@ -60,9 +73,9 @@ def kindOfAlgo (algo : String) : Except String String :=
   | a => throw s!"algo {a}"
 
 /-- op `c12b_emb`: for every solution of `sols` (canonical solutions of the real results)
-    the dictionary `to_dict` of its embedding under the given naming — `embPlain` for the
-    plain algorithms (`with_syn`: the input object carried leaf syntenies), `embSuper` for
-    the labelled ones (sets in the order given: `arr = id`; `to_dict` sorts them) — and,
+    the dictionary `to_dict` of its embedding under the given naming and colouring
+    (`Model/SolOutputColour.lean`) — `embPlainC` for the plain algorithms (`with_syn`: the
+    input object carried leaf syntenies), `embSuperC` for the labelled ones (sets in the order given: `arr = id`; `to_dict` sorts them) — and,
     when `member` is asked, whether the solution is one of the model solver's results. -/
 def embOp : Handler := fun j => do
   let S ← rtreeOf (← j.getObjVal? "S")
@@ -70,6 +83,7 @@ def embOp : Handler := fun j => do
   let c ← costsOf j
   let root ← rootOf j
   let nm ← namingOf j
+  let cl ← colouringOf j
   let algo ← getStr j "algo"
   let kind ← kindOfAlgo algo
   let withSyn ← getBool j "with_syn"
@@ -81,8 +95,8 @@ def embOp : Handler := fun j => do
   let norm (s : Sol) : Sol := if kind == "plain" then s.mapFam (fun _ => []) else s
   let msols ← if wantMember then do pure ((← modelSols algo c S o root).map norm) else pure []
   let dictOf (s : Sol) : OutputDict :=
-    if kind == "plain" then (embPlain nm c S o withSyn s).toDict Newick.write
-    else (embSuper nm id c S o (kind == "ordered") s).toDict Newick.write
+    if kind == "plain" then (embPlainC nm cl c S o withSyn s).toDict Newick.write
+    else (embSuperC nm cl id c S o (kind == "ordered") s).toDict Newick.write
   pure (Json.arr (sols.map (fun s =>
     Json.mkObj [("dict", outputDictToJson (dictOf s)),
                 ("member", if wantMember then toJson (msols.contains (norm s)) else Json.null)])).toArray)
